@@ -104,7 +104,15 @@ class C11(Prop):
                 if e.get("dup") and key in seen:
                     firstcopies.append(seen[key])
                 seen.setdefault(key, e["i"])
-        singles = idx if tier != "quick" else sorted(set(R.sample(idx, min(len(idx), 4)) + steered[:2] + firstcopies[:2]))
+        # the first payload packet of every connection (it is the one that opens the session)
+        opening = []
+        seen_conn = set()
+        for e in tl:
+            if "ctl" not in e and e["conn"] not in seen_conn:
+                seen_conn.add(e["conn"])
+                opening.append(e["i"])
+        singles = idx if tier != "quick" else sorted(set(R.sample(idx, min(len(idx), 4)) + steered[:2] + firstcopies[:2] +
+                                                         opening[:3]))
         for i in singles:
             out.append([[i, R.choice(["field", "flip"]), R.bits(16) or 1, R.below(4000), R.below(8)]])
         for _ in range(3 if tier == "quick" else 10):
